@@ -232,6 +232,9 @@ func VerifC02Names() {
 	w.pre04(c04, 39, 71)
 	c04.dirs = append(c04.dirs, dx)
 	w.pre04(c04, dx, vChildIn(dx, 2))
+	if w.dirSlots > 3 {
+		w.pre04(c04, vChildIn(dx, 3))
+	}
 	w.pre04links(c04)
 	n := w.vName("n")
 	proc := verifrt.Choose("proc", pCREATE, pMKDIR, pSYMLINK, pREMOVE, pRMDIR, pRENAME)
@@ -270,7 +273,7 @@ func VerifC02Names() {
 	// emptiness of the object n denotes, from its directory block (abstraction function)
 	empty := true
 	if exists && lf.kind == nfstypes.NF3DIR && proc == pRMDIR {
-		cx := verifrt.Choose("child", vChildIn(dx, 2), vChildIn(dx, 1), dx, 1)
+		cx := verifrt.Choose("child", vChildIn(dx, 2), vChildIn(dx, 3), vChildIn(dx, 1), dx, 1)
 		verifrt.Assume(cx == lf.ino)
 		cip := w.vInodeAt(cx)
 		blk := w.d.Peek(vBlockOf(cx, 0))
